@@ -27,14 +27,14 @@ var _ = Service("svc", func() {
 })
 
 var _ = Service("type", func() {
-	Method("mount", func() {
+	Method("path", func() {
 		Payload(func() {
 			Attribute("type", String)
 			Attribute("other", String)
 			Required("type")
 		})
 		HTTP(func() {
-			POST("/mount/{type}")
+			POST("/path/{type}")
 		})
 	})
 	Method("hdr", func() {
